@@ -24,6 +24,7 @@ VALUES = {
     "int": ["lit", 5], "float": ["lit", 2.5], "bool": ["lit", True], "str": ["lit", "text"], "none": ["lit", None],
     "dict": ["dct", [["a", ["lit", 1]]]], "list": ["lst", ["lit", 1], ["lit", 2]], "numstr": ["lit", "12"],
     "ndarray": ["ndarray"], "tensor0": ["tensor", [], "float32", "arange"],
+    "tcdict": ["dct", [["x", ["tensor", [3, 2], "float32", "arange"]], ["y", ["tensor", [3, 2, 4], "float32", "arange"]], ["s", ["lit", "q"]]]],
 }
 
 
@@ -269,6 +270,10 @@ def run_attr(case):
 
 
 # ------------------------------------------------------------------------------------------------ from_tensordict stream
+def _unused():
+    pass
+
+
 def fromtd_cases(R):
     rng = R.rng
     out = []
